@@ -415,6 +415,53 @@ Definition st_decode_raw (st : img) (f : Z) (ai : bool) : res (list Z) :=
   bind (std_index (f_frames m) f ai) (fun i =>
     bind (get_raw_frame false m (i_pd st) f ai) (fun raw => decode_native_c (i_c st) i raw)).
 
+(* ---- get_frames with every transform switched off ------------------ *)
+(* image.py get_frames(frame_numbers, as_indices, dtype=<integer type>, apply_*_transform=False, ...):
+   frame_numbers = list(frame_numbers); the (shared) transform is built from the FIRST requested number,
+   whose _standardize_frame_index therefore raises first; then, per requested number and in the order
+   requested: nothing cached -> the raw bytes of the frame (reader.read_frame_raw(frame_index) on a lazily
+   read image, get_raw_frame(frame_index + 1) otherwise) handed to the transform, which decodes them with
+   decode_frame(index=frame_index); an array cached -> a single-frame image is recognised by
+   number_of_frames == 1 (since the D108 fix; before, by the RANK of the cached array, which is also 3 for
+   one colour frame) and answers pixel_array for index 0, any other image answers pixel_array[frame_index];
+   finally np.stack.  With the transforms off and an integer output dtype the transform only casts
+   (oracle premise), so the values are the stored values. *)
+Definition st_frames_one (st : img) (f : Z) (ai : bool) : img * res (list Z) :=
+  let c := i_c st in
+  let n := f_frames (c_fmt c) in
+  match std_index n f ai with
+  | Err k => (st, Err k)
+  | Ok i =>
+      match i_cache st with
+      | None => (st, bind (get_raw_frame false (c_fmt c) (i_pd st) (i + 1) false)
+                          (fun raw => decode_native_c c i raw))
+      | Some _ =>
+          if n =? 1 then
+            if i =? 0 then let p := pixel_array st in (fst p, bind (snd p) (fun fs => Ok (nth 0 fs [])))
+            else (st, Err "IndexError")
+          else let p := pixel_array st in (fst p, bind (snd p) (fun fs => Ok (nth (Z.to_nat i) fs [])))
+      end
+  end.
+Fixpoint st_frames_loop (st : img) (fs : list Z) (ai : bool) : img * res (list (list Z)) :=
+  match fs with
+  | [] => (st, Ok [])
+  | f :: r =>
+      let p := st_frames_one st f ai in
+      match snd p with
+      | Err k => (fst p, Err k)
+      | Ok a => let q := st_frames_loop (fst p) r ai in (fst q, rmap (cons a) (snd q))
+      end
+  end.
+Definition st_frames (st : img) (fs : list Z) (ai : bool) : img * res (list (list Z)) :=
+  match fs with
+  | [] => (st, Err "ValueError")                 (* first_frame_index = 0; np.stack of an empty list *)
+  | f0 :: _ =>
+      match std_index (f_frames (c_fmt (i_c st))) f0 ai with
+      | Err k => (st, Err k)                     (* raised while the shared transform is built *)
+      | Ok _ => st_frames_loop st fs ai
+      end
+  end.
+
 Inductive op :=
 | OWhole                                  (* im.pixel_array *)
 | OOne (f : Z) (ai : bool)                (* im.get_stored_frame(f, as_index=ai) *)
@@ -423,8 +470,9 @@ Inductive op :=
 | ODecodeRaw (f : Z) (ai : bool)          (* decode_frame(im.get_raw_frame(f), ..., index) *)
 | OAssign (pd : list Z)                   (* im.PixelData = pd : Dataset.__setitem__ drops the cache *)
 | OInplace (pd : list Z)                  (* im['PixelData'].value = pd : cache object untouched *)
-| OHeader (c : cfmt).                     (* im.PixelRepresentation = ..., BitsStored, Rows/Columns,
+| OHeader (c : cfmt)                      (* im.PixelRepresentation = ..., BitsStored, Rows/Columns,
                                              PlanarConfiguration : cache object untouched *)
+| OFrames (fs : list Z) (ai : bool).      (* im.get_frames(fs, as_indices=ai, dtype=int64, all transforms off) *)
 
 (* what a caller can see of an answer: dtype, shape of one frame, values *)
 Definition shape_of (c : cfmt) : list Z :=
@@ -434,6 +482,9 @@ Definition meta (c : cfmt) : val :=
   VL [VS (dtype_name (f_bits (c_fmt c)) (f_signed (c_fmt c))); vz_list (shape_of c)].
 Definition vans {A} (c : cfmt) (g : A -> val) (r : res A) : val :=
   match r with Ok a => VL [meta c; g a] | Err k => VErr k end.
+(* get_frames: the dtype is the one the caller asked for (the harness asks for int64) *)
+Definition vans64 {A} (c : cfmt) (g : A -> val) (r : res A) : val :=
+  match r with Ok a => VL [VL [VS "int64"; vz_list (shape_of c)]; g a] | Err k => VErr k end.
 
 Definition step (st : img) (o : op) : img * val :=
   let c := i_c st in
@@ -446,6 +497,7 @@ Definition step (st : img) (o : op) : img * val :=
   | OAssign pd => (Img c pd None, VNone)
   | OInplace pd => (Img c pd (i_cache st), VNone)
   | OHeader c' => (Img c' (i_pd st) (i_cache st), VNone)
+  | OFrames fs ai => let p := st_frames st fs ai in (fst p, vans64 c vz_list2 (snd p))
   end.
 
 Fixpoint run_ops (st : img) (ops : list op) : list val :=
@@ -555,7 +607,8 @@ Record limg := LImg { l_c : cfmt; l_pd : list Z; l_cache : option (cfmt * list (
 
 Inductive lop :=
 | LWhole | LOne (f : Z) (ai : bool) | LBatch (fs : list Z) (ai : bool)
-| LRaw (f : Z) (ai : bool) | LDecodeRaw (f : Z) (ai : bool) | LHeader (c : cfmt).
+| LRaw (f : Z) (ai : bool) | LDecodeRaw (f : Z) (ai : bool) | LHeader (c : cfmt)
+| LFrames (fs : list Z) (ai : bool).
 
 (* get_stored_frame with nothing cached: read_frame_raw + decode_frame *)
 Definition lz_fresh_one (c : cfmt) (pd : list Z) (f : Z) (ai : bool) : res (list Z) :=
@@ -619,6 +672,45 @@ Definition lz_batch (st : limg) (fs : list Z) (ai : bool) : limg * res (list (li
   | _, _ => p
   end.
 
+(* get_frames (transforms off) on a lazily read image: see st_frames_one; the uncached branch reads
+   reader.read_frame_raw(frame_index) and decodes it with index = frame_index *)
+Definition lz_frames_one (st : limg) (f : Z) (ai : bool) : limg * res (list Z) :=
+  let c := l_c st in
+  let n := f_frames (c_fmt c) in
+  match std_index n f ai with
+  | Err k => (st, Err k)
+  | Ok i =>
+      match l_cache st with
+      | None => (st, frame_lazy_c c (l_pd st) i)
+      | Some _ =>
+          if n =? 1 then
+            if i =? 0 then let p := lz_whole st in (fst p, bind (snd p) (fun fs => Ok (nth 0 fs [])))
+            else (st, Err "IndexError")
+          else let p := lz_whole st in
+               (fst p, bind (snd p) (fun fs =>
+                         match nth_error fs (Z.to_nat i) with Some a => Ok a | None => Err "IndexError" end))
+      end
+  end.
+Fixpoint lz_frames_loop (st : limg) (fs : list Z) (ai : bool) : limg * res (list (list Z)) :=
+  match fs with
+  | [] => (st, Ok [])
+  | f :: r =>
+      let p := lz_frames_one st f ai in
+      match snd p with
+      | Err k => (fst p, Err k)
+      | Ok a => let q := lz_frames_loop (fst p) r ai in (fst q, rmap (cons a) (snd q))
+      end
+  end.
+Definition lz_frames (st : limg) (fs : list Z) (ai : bool) : limg * res (list (list Z)) :=
+  match fs with
+  | [] => (st, Err "ValueError")
+  | f0 :: _ =>
+      match std_index (f_frames (c_fmt (l_c st))) f0 ai with
+      | Err k => (st, Err k)
+      | Ok _ => lz_frames_loop st fs ai
+      end
+  end.
+
 Definition lz_decode_raw (st : limg) (f : Z) (ai : bool) : res (list Z) :=
   let m := c_fmt (l_c st) in
   bind (std_index (f_frames m) f ai) (fun i =>
@@ -633,6 +725,7 @@ Definition lstep (st : limg) (o : lop) : limg * val :=
   | LRaw f ai => (st, vres vz_list (get_raw_frame true (c_fmt c) (l_pd st) f ai))
   | LDecodeRaw f ai => (st, vans c vz_list (lz_decode_raw st f ai))
   | LHeader c' => (LImg c' (l_pd st) (l_cache st), VNone)
+  | LFrames fs ai => let p := lz_frames st fs ai in (fst p, vans64 c vz_list2 (snd p))
   end.
 
 Fixpoint lrun_ops (st : limg) (ops : list lop) : list val :=
@@ -643,3 +736,30 @@ Fixpoint lrun_ops (st : limg) (ops : list lop) : list val :=
 
 Definition run_lazy_history (c : cfmt) (pd : list Z) (ops : list lop) : val :=
   VL (lrun_ops (LImg c pd None) ops).
+
+(* ================================================================== *)
+(* batches in every request order, through every route                 *)
+(* ================================================================== *)
+(* one image opened four ways - in-memory / eagerly read with nothing cached (a), the same after
+   pixel_array (b), lazily read with nothing cached (x), lazily read after pixel_array (y) - and a list
+   of requests (frame numbers in ANY order, with repeats, possibly with a number outside the image;
+   convention); per request and per image get_stored_frames, then get_frames (transforms off); the four
+   images live on from request to request *)
+Fixpoint batch_order_loop (a b : img) (x y : limg) (reqs : list (list Z * bool)) : list val :=
+  match reqs with
+  | [] => []
+  | (fs, ai) :: r =>
+      let c := i_c a in
+      let pa := st_batch a fs ai in let pb := st_batch b fs ai in
+      let px := lz_batch x fs ai in let py := lz_batch y fs ai in
+      let qa := st_frames (fst pa) fs ai in let qb := st_frames (fst pb) fs ai in
+      let qx := lz_frames (fst px) fs ai in let qy := lz_frames (fst py) fs ai in
+      VL [vans c vz_list2 (snd pa); vans c vz_list2 (snd pb); vans c vz_list2 (snd px); vans c vz_list2 (snd py);
+          vans64 c vz_list2 (snd qa); vans64 c vz_list2 (snd qb); vans64 c vz_list2 (snd qx);
+          vans64 c vz_list2 (snd qy)]
+      :: batch_order_loop (fst qa) (fst qb) (fst qx) (fst qy) r
+  end.
+Definition run_batch_order (c : cfmt) (pd : list Z) (reqs : list (list Z * bool)) : val :=
+  let a := Img c pd None in
+  let x := LImg c pd None in
+  VL (batch_order_loop a (fst (pixel_array a)) x (fst (lz_whole x)) reqs).
